@@ -39,6 +39,161 @@ def run(ctx):
     r9_smoothing_sums_to_one(ctx)
     r10_math_domains(ctx)
     r11_greedy_set_nonempty(ctx)
+    r12_raw_actions_not_hashed(ctx)
+
+
+def r12_raw_actions_not_hashed(ctx, rule="C16.R12"):
+    """Actions may be lists or dicts (dense / sparse feature vectors): a learner must not use an action AS OFFERED as a dictionary key or set member.  bandit.py
+    converts with make_hashable first; everything else has to compare with == / look positions up with .index()."""
+    ctx.rule(rule, "no learner hashes an action as offered: ordered per-function taint analysis over coba/learners -- tainted are the `action` parameter, the members of the "
+                   "`actions` parameter and whatever a wrapped learner's predict() returned; make_hashable(x) / map(make_hashable, xs) cleans; sinks are dict keys "
+                   "(d[x], d.get(x), x in d, setdefault, {x: ..}), set members (set(xs), .add(x)), dict(zip(xs, ..)), Counter(xs) and hash(x)")
+    LRN = [rel for rel in ctx.model.modules if rel.startswith("coba/learners/") and not rel.endswith("__init__.py")]
+    n_fn = n_sink = 0
+
+    def clean_call(e):
+        return isinstance(e, ast.Call) and (call_name(e) == "make_hashable" or (call_name(e) in ("map",) and e.args and unparse(e.args[0]) == "make_hashable")
+                                            or (call_name(e) in ("list", "tuple") and e.args and clean_call(e.args[0])))
+
+    ENTRY = ("predict", "score", "learn", "_pmf")               # called from outside (or by the PMF predictors) with the actions as offered
+    helper_args = {}                                            # (rel, class, helper name) -> {position: kind} joined over the call sites in analysed methods
+    work = [(rel, qual, fn) for rel in sorted(LRN) for (r_, qual), fn in sorted(ctx.model.functions.items()) if r_ == rel]
+    work = [w for w in work if w[1].split(".")[-1] in ENTRY] + [w for w in work if w[1].split(".")[-1] not in ENTRY]
+    for rel, qual, fn in work:
+        if True:
+            params = [a.arg for a in fn.args.args]
+            mname = qual.split(".")[-1]
+            if mname in ENTRY:
+                if not ({"action", "actions"} & set(params)):
+                    continue
+                item = {p for p in params if p == "action"}         # names holding ONE raw action
+                coll = {p for p in params if p == "actions"}        # names holding collections whose members are (or contain) raw actions
+            else:
+                seeds = helper_args.get((rel, ".".join(qual.split(".")[:-1]), mname), {})
+                if not seeds:
+                    continue
+                item = {params[i] for i, k_ in seeds.items() if k_ == "item" and i < len(params)}
+                coll = {params[i] for i, k_ in seeds.items() if k_ == "coll" and i < len(params)}
+            n_fn += 1
+
+            def kind(e):
+                """'item' / 'coll' / None for an expression"""
+                if clean_call(e):
+                    return None
+                if isinstance(e, ast.Name):
+                    return "item" if e.id in item else "coll" if e.id in coll else None
+                if isinstance(e, ast.Call) and isinstance(e.func, ast.Attribute) and e.func.attr == "predict":
+                    return "coll"                                 # (action, prob, ...) of a wrapped learner
+                if isinstance(e, ast.Call) and call_name(e) in ("zip", "list", "tuple", "iter", "reversed", "sorted", "enumerate", "chain", "map"):
+                    return "coll" if any(kind(a.value if isinstance(a, ast.Starred) else a) for a in e.args) else None
+                if isinstance(e, (ast.ListComp, ast.GeneratorExp)):
+                    return "coll" if kind(e.elt) or any(kind(g.iter) for g in e.generators) and kind(e.elt) else ("coll" if kind(e.elt) else None)
+                if isinstance(e, ast.Subscript):
+                    return "item" if kind(e.value) == "coll" and not isinstance(e.slice, ast.Slice) else kind(e.value) if isinstance(e.slice, ast.Slice) else None
+                if isinstance(e, (ast.Tuple, ast.List)):
+                    return "coll" if any(kind(x) for x in e.elts) else None
+                return None
+
+            def bind(target, k):
+                names = [target] if isinstance(target, ast.Name) else [x for x in ast.walk(target) if isinstance(x, ast.Name)] if isinstance(target, (ast.Tuple, ast.List)) else []
+                for nm in names:
+                    item.discard(nm.id)
+                    coll.discard(nm.id)
+                    if k == "item":
+                        item.add(nm.id)
+                    elif k == "coll":
+                        coll.add(nm.id)
+
+            def bind_iter(target, it):
+                """for <target> in <it>: members of a tainted collection are items (of a zip: position-wise)"""
+                if isinstance(it, ast.Call) and call_name(it) == "zip" and isinstance(target, (ast.Tuple, ast.List)) and len(target.elts) == len(it.args):
+                    for t_, a_ in zip(target.elts, it.args):
+                        bind_iter(t_, a_)
+                    return
+                if isinstance(it, ast.Call) and call_name(it) == "enumerate" and isinstance(target, (ast.Tuple, ast.List)) and len(target.elts) == 2 and it.args:
+                    bind(target.elts[0], None)
+                    bind_iter(target.elts[1], it.args[0])
+                    return
+                k = kind(it)
+                # members of a collection of predict() tuples are tuples again
+                bind(target, "item" if k == "coll" and isinstance(target, ast.Name) else k)
+
+            def sinks(e):
+                for x in ast.walk(e):
+                    hit = None
+                    if isinstance(x, ast.Subscript) and kind(x.slice) == "item":
+                        hit = x
+                    elif isinstance(x, ast.Call) and isinstance(x.func, ast.Attribute) and x.func.attr in ("get", "setdefault", "pop", "add", "discard", "remove", "__getitem__", "__contains__") \
+                            and x.args and kind(x.args[0]) == "item" and not (x.func.attr in ("remove", "pop") and kind(x.func.value) == "coll"):
+                        hit = x
+                    elif isinstance(x, ast.Call) and call_name(x) in ("set", "frozenset", "Counter", "dict.fromkeys") and x.args and kind(x.args[0]) == "coll":
+                        hit = x
+                    elif isinstance(x, ast.Call) and call_name(x) == "dict" and x.args and isinstance(x.args[0], ast.Call) and call_name(x.args[0]) == "zip" and x.args[0].args and kind(x.args[0].args[0]) == "coll":
+                        hit = x
+                    elif isinstance(x, ast.Call) and call_name(x) == "hash" and x.args and kind(x.args[0]):
+                        hit = x
+                    elif isinstance(x, ast.Dict) and any(k_ is not None and kind(k_) == "item" for k_ in x.keys):
+                        hit = x
+                    elif isinstance(x, (ast.DictComp,)) and kind(x.key) == "item":
+                        hit = x
+                    elif isinstance(x, (ast.SetComp,)) and kind(x.elt) == "item":
+                        hit = x
+                    elif isinstance(x, ast.Compare) and any(isinstance(o, (ast.In, ast.NotIn)) for o in x.ops) and kind(x.left) == "item" and not any(kind(c_) == "coll" for c_ in x.comparators):
+                        hit = x
+                    if hit is not None:
+                        yield hit
+
+            def comp_scopes(e):
+                """bind the loop variables of comprehensions (inner first is not needed: names are unique enough in these small functions)"""
+                for x in ast.walk(e):
+                    if isinstance(x, (ast.ListComp, ast.SetComp, ast.DictComp, ast.GeneratorExp)):
+                        for g in x.generators:
+                            bind_iter(g.target, g.iter)
+
+            def visit(stmts):
+                nonlocal n_sink
+                for st in stmts:
+                    if isinstance(st, (ast.FunctionDef, ast.ClassDef)):
+                        continue
+                    exprs = [st.value] if isinstance(st, (ast.Assign, ast.AugAssign, ast.Expr, ast.Return)) and getattr(st, "value", None) is not None else \
+                        [st.test] if isinstance(st, (ast.If, ast.While, ast.Assert)) else [st.iter] if isinstance(st, ast.For) else []
+                    if isinstance(st, (ast.Assign, ast.AugAssign)):
+                        exprs += list(st.targets if isinstance(st, ast.Assign) else [st.target])
+                    for e in exprs:
+                        comp_scopes(e)
+                        for c_ in [c_ for c_ in ast.walk(e) if isinstance(c_, ast.Call) and isinstance(c_.func, ast.Attribute) and isinstance(c_.func.value, ast.Name) and c_.func.value.id == "self"]:
+                            slot = helper_args.setdefault((rel, ".".join(qual.split(".")[:-1]), c_.func.attr), {})
+                            for i_, a_ in enumerate(c_.args, start=1):
+                                k_ = kind(a_)
+                                if k_:
+                                    slot[i_] = k_
+                        for h in sinks(e):
+                            n_sink += 1
+                            ctx.ob(rule, rel, qual, h, "an action as offered (possibly a list or a dict) is not used as a dictionary key / set member", False, detail={"use": unparse(h)[:100]})
+                    if isinstance(st, ast.Assign):
+                        k = kind(st.value)
+                        for t in st.targets:
+                            if isinstance(t, (ast.Tuple, ast.List)) and isinstance(st.value, (ast.Tuple, ast.List)) and len(t.elts) == len(st.value.elts):
+                                for t_, v_ in zip(t.elts, st.value.elts):
+                                    bind(t_, kind(v_))
+                            else:
+                                bind(t, k if not isinstance(t, (ast.Tuple, ast.List)) else ("coll" if k else None))
+                    elif isinstance(st, ast.For):
+                        bind_iter(st.target, st.iter)
+                        visit(st.body)
+                        visit(st.orelse)
+                    elif isinstance(st, (ast.If, ast.While)):
+                        visit(st.body)
+                        visit(st.orelse)
+                    elif isinstance(st, (ast.With, ast.Try)):
+                        visit(st.body)
+                        for h_ in getattr(st, "handlers", []):
+                            visit(h_.body)
+                        visit(getattr(st, "orelse", []))
+                        visit(getattr(st, "finalbody", []))
+            visit(fn.body)
+    ctx.floor(rule, "learner methods that receive actions as offered", n_fn, 12)
+    ctx.note(f"{rule}: {n_fn} methods analysed, {n_sink} raw-action hash sites")
 
 
 def _single_return(fn):
@@ -577,6 +732,9 @@ def r10_math_domains(ctx):
 
 
 CONTROLS = [
+    ("Corral sums the base weights in a dict keyed by action", "coba/learners/corral.py", M.replace_stmt("CorralLearner._pmf", M.text_has("pmf ="),
+        "weight = {}\nfor p_b, b_a in zip(self._p_bars, base_actions): weight[b_a] = weight.get(b_a, 0) + p_b\npmf = [weight.get(a, 0) for a in actions]"), "C16.R12"),
+    ("epsilon learner keys its statistics by the raw action", "coba/learners/bandit.py", M.delete_stmt("BanditEpsilonLearner.learn", M.text_has("action = make_hashable(action)")), "C16.R12"),
     ("epsilon-greedy maximises over every action ever seen", "coba/learners/bandit.py", M.replace_expr("BanditEpsilonLearner._pmf", "None if set(values) == {None} else max((v for v in values if v is not None))", "max(self._Q.values())"), "C16.R11"),
     ("ucb variance as mean of squares minus squared mean", "coba/learners/bandit.py", M.replace_expr("BanditUCBLearner._Var_R_UCB", "self._v[action].variance", "self._v[action].variance - self._m[action] ** 2"), "C16.R10"),
     ("uniform draws reach 1.0", "coba/random.py", M.replace_expr("CobaRandom._next_uniform", "s / m", "s / m_1"), "C16.R8"),
